@@ -21,6 +21,8 @@ PREVIEWS = {"pn": None, "p0": 0, "p7": 7, "p1024": 1024, "p4096": 4096}
 SIZES = [0, 1, 6, 7, 8, 100, 1023, 1024, 1025, 4095, 4096, 4097, 10000, 16000, 40000, 65535, 65536, 70000, 200000]
 FAULT_POINTS = ["after_head", "after_preview", "after_100", "after_all", "in_icap_head", "in_http_head", "in_body", "before_last_chunk"]
 BEFORE_RESPONSE = ("after_head", "after_preview", "after_all")
+GARBAGE = [b"SMTP 220 hello\r\n\r\n", b"ICAP/1.0 abc def\r\n\r\n", b"HTTP/1.1 200 OK\r\nContent-Length: 0\r\n\r\n", b"\x00\x01\x02\xff" * 10, b"ICAP/1.0 200 OK\r\nEncapsulated: res-body=abc\r\n\r\n",
+                           b"ICAP/1.0 200 OK\r\nISTag: \"x\"\r\nEncapsulated: res-hdr=0, res-body=999999\r\n\r\nHTTP/1.1 200 OK\r\nX-Verif-Variant: adapted\r\n\r\n", b"ICAP/1.0 200 OK\r\n" + b"X: y\r\n" * 3000 + b"\r\n"]
 
 
 def services():
@@ -61,8 +63,7 @@ def gen_case(seed, n):
         c["fault"] = {"kind": r.choice(["close", "close", "rst", "rst", "stall"]) if r.random() < 0.93 else "stall", "at": r.choice(FAULT_POINTS), "frac": r.random(), "stall": 3.5}
         if c["fault"]["kind"] == "stall" and r.random() < 0.7:
             c["fault"]["kind"] = "close"                # stalls cost seconds: keep them rare
-    c["garbage"] = r.choice([b"SMTP 220 hello\r\n\r\n", b"ICAP/1.0 abc def\r\n\r\n", b"HTTP/1.1 200 OK\r\nContent-Length: 0\r\n\r\n", b"\x00\x01\x02\xff" * 10, b"ICAP/1.0 200 OK\r\nEncapsulated: res-body=abc\r\n\r\n",
-                           b"ICAP/1.0 200 OK\r\nISTag: \"x\"\r\nEncapsulated: res-hdr=0, res-body=999999\r\n\r\nHTTP/1.1 200 OK\r\n\r\n", b"ICAP/1.0 200 OK\r\n" + b"X: y\r\n" * 3000 + b"\r\n"])
+    c["garbage"] = r.randrange(len(GARBAGE))
     return c
 
 
@@ -115,7 +116,7 @@ def run(a, res):
             head += b"\r\n"
             kind = "req"
         plan = {"action": c["action"], "when": c["when"], "status": c["status"], "adapted": {"kind": kind, "head": head, "body": body}, "chunks": c["chunks"], "fault": c["fault"],
-                "conn_close": c["conn_close"], "garbage": c["garbage"]}
+                "conn_close": c["conn_close"], "garbage": GARBAGE[c["garbage"]]}
         if c["nsplits"]:
             r = random.Random(c["split_seed"])
             plan["splits"] = sorted(r.randrange(1, 400 + (len(body) if body else 0)) for _ in range(c["nsplits"]))
@@ -137,11 +138,7 @@ def run(a, res):
         conf.append(f"acl acl_{s} urlpath_regex ^/c60/{s}/")
         conf.append(f"adaptation_access {s} allow acl_{s}")
     lab = Lab(a, res, handler=handler, conf="\n".join(conf) + "\n")
-    # let squid fetch OPTIONS of all services before the workload (a service without OPTIONS is "down")
-    t0 = time.time()
-    while icap.options_seen < len(services()) and time.time() - t0 < 20:
-        time.sleep(0.1)
-    res.count("options_fetched", icap.options_seen)
+    # squid fetches OPTIONS of a service lazily, when its first transaction arrives
 
     def first_diff(x, y):
         for i in range(min(len(x), len(y))):
@@ -149,7 +146,7 @@ def run(a, res):
                 return i
         return min(len(x), len(y))
 
-    def judge_message(c, wit, variant, body, complete, V, A, side):
+    def judge_message(c, wit, variant, body, complete, V, A, side, ctx=b""):
         """variant: marker found in the head received by `side`. Returns class string or None after reporting a violation"""
         if variant == "virgin":
             ref, other, oname = V, A, "adapted"
@@ -163,7 +160,7 @@ def run(a, res):
                 mixed = other is not None and len(body) > 8 and (other.startswith(body[:min(len(body), 64)]) or body[-32:] in other)
                 res.violation(f"{side}-{variant}-body-differs" + (":contains-" + oname if mixed else ""),
                               f"{side} got a COMPLETE message marked {variant} whose body ({len(body)} bytes) differs from the {variant} body ({len(ref)} bytes), first difference at {first_diff(body, ref)}; "
-                              f"svc={c['svc']} action={c['action']} when={c['when']} fault={c['fault']} vlen={c['vlen']} alen={c['alen']}", wit)
+                              f"svc={c['svc']} action={c['action']} when={c['when']} fault={c['fault']} vlen={c['vlen']} alen={c['alen']}; head received: {bytes(ctx[:500])!r}", wit)
                 return None
             return variant
         if not ref.startswith(body):
@@ -245,7 +242,8 @@ def run(a, res):
                 if up.body_error:
                     res.violation("origin-request-body-invalid", f"origin received an invalid request body framing: {up.body_error}", wit)
                     return
-                ocls = judge_message(c, wit, variant, up.body, up.body_complete, Vreq or b"", A, "origin")
+                # (origin stub: a reset while it reads the body leaves body_complete at its initial True and never sets t_body)
+                ocls = judge_message(c, wit, variant, up.body, up.body_complete and hasattr(up, "t_body"), Vreq or b"", A, "origin", up.raw_head)
                 if ocls is None:
                     return
                 outcome = "fwd-" + ocls
@@ -270,10 +268,15 @@ def run(a, res):
         delivered_virgin = outcome in ("virgin", "fwd-virgin")
         delivered_adapted = outcome in ("adapted", "fwd-adapted", "satisfied-adapted")
         clean = bool(txs) and len(txs) == 1 and fired is None
+        if clean and eff in ("204", "200") and (txs[0].wall_response_done is None or txs[0].wall_response_done - txs[0].t_wall > 1.0):
+            # the stub itself was slow (loaded machine): squid's icap_io_timeout (2 s) may have fired legitimately
+            clean = False
+            res.grey("slow-stub")
         if strict_bypass:
             res.count("strict_bypass_cases")
+            res.count("strict_bypass:" + "+".join(sorted(set(t.plan["fault"]["kind"] for t in txs))) + ":" + outcome)
             if not delivered_virgin:
-                res.violation("bypass-virgin-not-delivered", f"bypass=on, ICAP connection fault {c['fault']} fired before any ICAP response byte (attempts: {[t.fault_fired for t in txs]}), virgin body {c['vlen']} bytes <= 16 KB, "
+                res.violation("bypass-virgin-not-delivered:" + "+".join(sorted(set(t.plan["fault"]["kind"] for t in txs))), f"bypass=on, ICAP connection fault {c['fault']} fired before any ICAP response byte (attempts: {[t.fault_fired for t in txs]}), virgin body {c['vlen']} bytes <= 16 KB, "
                               f"but the outcome is '{outcome}' instead of the complete virgin message; svc={c['svc']} status={m.status}", wit)
                 return
         if clean and eff == "204":
@@ -310,6 +313,7 @@ def run(a, res):
             if t.key is not None and t.body_complete and t.has_body:
                 pass
     res.count("icap_transactions_total", n_tx)
+    res.count("icap_options_requests", icap.options_seen)
     if not a.replay_data:
         if n_tx < a.cases // 2:
             res.inconclusive.append(f"only {n_tx} ICAP transactions for {a.cases} cases: adaptation is not happening")
